@@ -171,3 +171,122 @@ contract(G + 'bbox_contains', props=['C03', 'C17'],
                   # exact containment implies the answer True; True implies containment up to the declared tolerance
                   'implies(one[0] <= two[0] and one[1] <= two[1] and two[2] <= one[2] and two[3] <= one[3], result)'],
          must_fail='result')
+
+# ---- level choice -------------------------------------------------------------------------------------------
+# resolutions strictly decreasing, stated in the two-index form so that no induction is needed
+ghost('res_decreasing', ['g'], "forall(lambda i, j: implies(0 <= i and i < j and j < g.levels, g.resolutions[i] > g.resolutions[j]))")
+
+contract(G + 'TileGrid.closest_level', props=['C03'],
+         types=dict(res='real'), returns='int',
+         requires=['grid_wf(self)', 'res_decreasing(self)', 'res > 0', 'self.stretch_factor >= 1',
+                   'self.threshold_res is None'],
+         ensures=[
+             '0 <= result < self.levels',
+             # the level closest above the requested resolution, if it is within the stretch factor
+             """forall(lambda f: implies(0 <= f < self.levels and self.resolutions[f] >= res
+                       and (f == self.levels - 1 or self.resolutions[f + 1] < res)
+                       and self.resolutions[f] <= res * self.stretch_factor, result == f))""",
+             # otherwise the coarsest finer level
+             """forall(lambda f: implies(0 <= f < self.levels and self.resolutions[f] < res
+                       and (f == 0 or self.resolutions[f - 1] > res * self.stretch_factor), result == f))""",
+             # the finest level if none is fine enough
+             'implies(self.resolutions[self.levels - 1] > res * self.stretch_factor, result == self.levels - 1)',
+         ],
+         loops={1: dict(types={'threshold_result': 'opt[int]', 'thresholds': 'list[real]', 'threshold': 'opt[real]'}, inv=[
+             'implies(threshold_result is None, forall(lambda j: implies(0 <= j < _k, self.resolutions[j] > res * self.stretch_factor)))',
+             'implies(threshold_result is not None, threshold_result == _k - 1 and _k >= 1 and self.resolutions[_k - 1] <= res * self.stretch_factor)',
+             'forall(lambda j: implies(1 <= j < _k, self.resolutions[j - 1] > res * self.stretch_factor or self.resolutions[j] >= res))',
+             'threshold is None and len(thresholds) == 0',
+         ])},
+         must_fail='result == 0')
+
+ghost('is_closest_level', ['g', 'res', 'lvl'], """
+    0 <= lvl < g.levels
+    and forall(lambda f: implies(0 <= f < g.levels and g.resolutions[f] >= res
+               and (f == g.levels - 1 or g.resolutions[f + 1] < res)
+               and g.resolutions[f] <= res * g.stretch_factor, lvl == f))
+    and forall(lambda f: implies(0 <= f < g.levels and g.resolutions[f] < res
+               and (f == 0 or g.resolutions[f - 1] > res * g.stretch_factor), lvl == f))
+    and implies(g.resolutions[g.levels - 1] > res * g.stretch_factor, lvl == g.levels - 1)""")
+
+contract(G + 'TileGrid.get_affected_bbox_and_level', props=['C03', 'C01'],
+         types=dict(bbox='tuple[real,real,real,real]', size='tuple[int,int]', req_srs='none'),
+         returns='tuple[tuple[real,real,real,real],int]',
+         requires=['grid_wf(self)', 'res_decreasing(self)', 'self.stretch_factor >= 1', 'self.threshold_res is None',
+                   'size[0] > 0 and size[1] > 0', 'bbox[0] < bbox[2] and bbox[1] < bbox[3]'],
+         raises={'NoTiles': """not (self.bbox[0] < bbox[2] and self.bbox[2] > bbox[0] and self.bbox[1] < bbox[3] and self.bbox[3] > bbox[1])
+                               or min((bbox[2] - bbox[0]) / size[0], (bbox[3] - bbox[1]) / size[1]) > self.resolutions[0] * self.max_shrink_factor"""},
+         ensures=['result[0] == bbox',
+                  'is_closest_level(self, min((bbox[2] - bbox[0]) / size[0], (bbox[3] - bbox[1]) / size[1]), result[1])',
+                  'self.bbox[0] < bbox[2] and self.bbox[2] > bbox[0] and self.bbox[1] < bbox[3] and self.bbox[3] > bbox[1]'],
+         must_fail='result[1] == 0')
+
+# ---- origin handling ----------------------------------------------------------------------------------------
+ghost('origin_norm', ['o'], "'ll' if (o is None or str_lower(o) == 'll' or str_lower(o) == 'sw') else 'ul'",
+      concrete=lambda o: __import__('mapproxy.grid', fromlist=['x']).origin_from_string(o))
+contract(G + 'origin_from_string', props=['C03', 'C02'],
+         types=dict(origin='opt[str]'), returns='str',
+         raises={'ValueError': "origin is not None and str_lower(origin) != 'll' and str_lower(origin) != 'sw' and str_lower(origin) != 'ul' and str_lower(origin) != 'nw'"},
+         ensures=['result == origin_norm(origin)', "result == 'll' or result == 'ul'",
+                  "origin is None or str_lower(origin) == 'll' or str_lower(origin) == 'sw' or str_lower(origin) == 'ul' or str_lower(origin) == 'nw'"],
+         must_fail="result == 'll'")
+
+ghost('level_aligned', ['g', 'l'], """
+    abs((g.bbox[3] - g.bbox[1]) - g.grid_sizes[l][1] * g.tile_size[1] * g.resolutions[l])
+        <= max(abs(g.bbox[1]), abs(g.bbox[3])) / 1e12 + 4e-12""")
+
+contract(G + 'TileGrid.supports_access_with_origin', props=['C03', 'C02'],
+         types=dict(origin='str'), returns='bool',
+         requires=['grid_wf(self)'],
+         raises={'ValueError': True},
+         ensures=[
+             # offered  =>  same numbering, or on EVERY level the tile rows end exactly at the grid bbox,
+             # which is what makes flipping preserve the ground rectangle (lemma flip_preserves_bbox)
+             'implies(result, origin_norm(origin) == self.origin or forall(lambda l: implies(0 <= l < self.levels, level_aligned(self, l))))',
+             'implies(origin_norm(origin) == self.origin, result)'],
+         loops={0: dict(inv=['forall(lambda l: implies(0 <= l < _k, level_aligned(self, l)))'])},
+         must_fail='result')
+
+lemma('flip_preserves_bbox', ['C03', 'C02'],
+      doc='if gh*th*res == height (within d) then tile y in ll numbering and gh-1-y in ul numbering have the same '
+          'y-range within d',
+      fn=lambda z3: (lambda b1, b3, gh, th, res, y, d: (
+          [gh >= 1, th >= 1, res > 0, d >= 0, z3.And((b3 - b1) - z3.ToReal(gh * th) * res <= d, z3.ToReal(gh * th) * res - (b3 - b1) <= d)],
+          z3.And((b1 + z3.ToReal(y * th) * res) - (b3 - z3.ToReal((gh - 1 - y + 1) * th) * res) <= d,
+                 (b3 - z3.ToReal((gh - 1 - y + 1) * th) * res) - (b1 + z3.ToReal(y * th) * res) <= d)))(
+          z3.Real('b1'), z3.Real('b3'), z3.Int('gh'), z3.Int('th'), z3.Real('res'), z3.Int('y'), z3.Real('d')))
+
+# ---- grid sizes per level -------------------------------------------------------------------------------------
+# what `_calc_grids` guarantees for one level: at least one tile, no superfluous column/row, and the tiles reach
+# to within one pixel of the far edge (width // res drops a partial pixel: suspect S11, see cover_exact below)
+ghost('calc_grid_rel', ['ext', 'ts', 'res', 'n'], """
+    n >= 1 and n * ts * res > ext - res and (n == 1 or (n - 1) * ts * res < ext)""")
+
+contract(G + 'TileGrid._calc_grids', props=['C03'],
+         types={}, returns='gridlist[tuple[int,int]]',
+         requires=['self.bbox[0] < self.bbox[2] and self.bbox[1] < self.bbox[3]',
+                   'self.tile_size[0] >= 1 and self.tile_size[1] >= 1',
+                   'forall(lambda l: implies(0 <= l < len(self.resolutions), self.resolutions[l] > 0))'],
+         ensures=[
+             'len(result) == len(self.resolutions)',
+             """forall(lambda l: implies(0 <= l < len(self.resolutions),
+                   calc_grid_rel(self.bbox[2] - self.bbox[0], self.tile_size[0], self.resolutions[l], result[l][0])
+                   and calc_grid_rel(self.bbox[3] - self.bbox[1], self.tile_size[1], self.resolutions[l], result[l][1])))""",
+             # the property's wording: the tiles cover the WHOLE grid area (no uncovered strip at the far edge)
+             """forall(lambda l: implies(0 <= l < len(self.resolutions),
+                   result[l][0] * self.tile_size[0] * self.resolutions[l] >= self.bbox[2] - self.bbox[0]
+                   and result[l][1] * self.tile_size[1] * self.resolutions[l] >= self.bbox[3] - self.bbox[1]))""",
+         ],
+         loops={0: dict(types={'grids': 'list[tuple[str,tuple[int,int]]]', 'x': 'int', 'y': 'int'}, inv=[
+             'len(grids) == _k',
+             """forall(lambda l: implies(0 <= l < _k,
+                   calc_grid_rel(self.bbox[2] - self.bbox[0], self.tile_size[0], self.resolutions[l], grids[l][1][0])
+                   and calc_grid_rel(self.bbox[3] - self.bbox[1], self.tile_size[1], self.resolutions[l], grids[l][1][1])))""",
+             # levels at which the extent is a whole number of pixels are covered exactly (used for cover_exact)
+             """forall(lambda l: implies(0 <= l < _k,
+                   implies(floor((self.bbox[2] - self.bbox[0]) / self.resolutions[l]) == (self.bbox[2] - self.bbox[0]) / self.resolutions[l],
+                           grids[l][1][0] * self.tile_size[0] * self.resolutions[l] >= self.bbox[2] - self.bbox[0])
+                   and implies(floor((self.bbox[3] - self.bbox[1]) / self.resolutions[l]) == (self.bbox[3] - self.bbox[1]) / self.resolutions[l],
+                           grids[l][1][1] * self.tile_size[1] * self.resolutions[l] >= self.bbox[3] - self.bbox[1])))""",
+         ])},
+         must_fail='len(result) == 0')
